@@ -322,6 +322,8 @@ def value_in_model(m, x):
         return x.eval_model(m)
     if isinstance(x, (list, tuple)):
         return [value_in_model(m, y) for y in x]
+    if isinstance(x, dict):
+        return {k: value_in_model(m, v) for k, v in x.items()}
     return x
 
 
